@@ -7,6 +7,8 @@ import json, os, re
 HERE = os.path.dirname(os.path.dirname(os.path.abspath(__file__)))
 PROPS = os.path.join(HERE, "lean", "SPProofs", "Properties")
 EXTRA = {
+    "C15": [("SPProofs.Misc.Implied", "SPModel.Implied.column_spec", "full"),
+            ("SPProofs.Misc.Implied", "SPModel.Implied.column_length", "full")],
     # property -> [(module, theorem, status)]: theorems that live outside Properties/<id>.lean
     "C01": [("SPProofs.Pipeline.VarLists", "SPModel.Pipeline.variableLists_eq", "full"),
             ("SPProofs.Pipeline.VarLists", "SPModel.Pipeline.ranges_tile", "full"),
